@@ -236,9 +236,13 @@ def both_outcomes_handled(ctx):
     rw = norm(kwarg(ws[0], 'return_when')) if ws and kwarg(ws[0], 'return_when') is not None else 'ALL_COMPLETED'
     ctl = q.names_defined_by(f, lambda v: isinstance(v, ast.Call) and 'executor_cls' in norm(v.func))
     subs = [c for c in own_calls(f.node) if isinstance(c.func, ast.Attribute) and c.func.attr == 'submit' and norm(c.func.value) in ctl]
-    futs = sorted(c._parent.targets[0].id for c in subs if isinstance(c._parent, ast.Assign))
-    ok = len(ws) == 1 and rw.split('.')[-1] in ('FIRST_EXCEPTION', 'ALL_COMPLETED') and isinstance(ws[0].args[0], ast.List) \
-        and sorted(norm(e) for e in ws[0].args[0].elts) == futs and len(futs) == 2
+    waited = []
+    if ws and ws[0].args and isinstance(ws[0].args[0], ast.List):
+        for e in ws[0].args[0].elts:
+            v = q.resolve_local(f, e)
+            waited.append(next((c for c in subs if c is v), None))
+    ok = len(ws) == 1 and rw.split('.')[-1] in ('FIRST_EXCEPTION', 'ALL_COMPLETED') and len(subs) == 2 \
+        and len(waited) == 2 and all(w is not None for w in waited) and waited[0] is not waited[1]
     ctx.ob(f, f'wait([parts_future, io_future], return_when={rw.split(".")[-1]})', ok,
            'the download must not return before both the part fetcher and the IO writer finished without error: a late write error would be lost and a truncated file published')
     pr = ctx.func('__init__.MultipartDownloader._process_future_results')
